@@ -27,6 +27,11 @@ type RefCase struct {
 	Rendered map[int]bool         // paths referenced at a rendered position
 	Hidden   map[int]bool         // paths referenced only inside elements that render nothing
 	Cgo      bool                 // a preamble exists
+	// Preambles: the texts given to CgoPreamble, in call order.  With a preamble the output must
+	// hold `import "C"` exactly once, in a declaration of its own, unnamed, directly preceded
+	// by the preamble comments (that adjacency is what makes them the cgo preamble) - whether or
+	// not C is referenced or given to Anon.
+	Preambles []string
 	// AnonThenHint: paths for which an Anon operation is FOLLOWED by a hint operation for the
 	// same path (whatever the hint says, the anonymous import stays unless the path is
 	// referenced at a rendered position).
@@ -142,28 +147,99 @@ func parseImports(f *ast.File) ([]impSpec, error) {
 
 // DeclaredName is the name jennifer is entitled to rely on when it writes no alias.
 func (rc *RefCase) DeclaredName(path string) string {
+	if path == "C" {
+		return "C" // the pseudo-package is C whatever hints name the path "C"
+	}
 	if h, ok := rc.Hints[path]; ok && h[1] == "name" {
 		return h[0]
 	}
 	if n, ok := StdNames[path]; ok {
 		return n
 	}
-	if path == "C" {
-		return "C"
-	}
 	return "zz_unrelated_" + strconv.Itoa(len(path))
+}
+
+// renderedComment is the text jennifer's documented comment rule gives a comment string: as
+// is when it starts with // or /*, a block when it holds a newline, else a line comment.
+func renderedComment(c string) string {
+	switch {
+	case strings.HasPrefix(c, "//") || strings.HasPrefix(c, "/*"):
+		return c
+	case strings.HasSuffix(c, "\n"):
+		return "/*\n" + c + "*/"
+	case strings.Contains(c, "\n"):
+		return "/*\n" + c + "\n*/"
+	}
+	return "// " + c
+}
+
+// cgoRule: "C" is never given a name (not even `_`); with a preamble there is exactly one
+// import of "C", alone in its own import declaration, and the comments directly above that
+// declaration are exactly the preambles in call order; without a preamble "C" is an ordinary
+// member of the import block (whether it is wanted at all is decided by the exactness checks
+// of Resolve: referenced or given to Anon).
+func (rc *RefCase) cgoRule(f *ast.File) string {
+	nC := 0
+	var own *ast.GenDecl
+	for _, d := range f.Decls {
+		gd, ok := d.(*ast.GenDecl)
+		if !ok || gd.Tok != token.IMPORT {
+			continue
+		}
+		for _, sp := range gd.Specs {
+			is := sp.(*ast.ImportSpec)
+			if is.Path.Value != `"C"` {
+				if p, err := strconv.Unquote(is.Path.Value); err != nil || p != "C" {
+					continue
+				}
+			}
+			nC++
+			if is.Name != nil {
+				return fmt.Sprintf("\"C\" is imported under the name %s", is.Name.Name)
+			}
+			if len(gd.Specs) == 1 {
+				own = gd
+			}
+		}
+	}
+	if !rc.Cgo {
+		return ""
+	}
+	if nC != 1 {
+		return fmt.Sprintf("the file has a cgo preamble but %d imports of \"C\" (want exactly one)", nC)
+	}
+	if own == nil {
+		return "the file has a cgo preamble but `import \"C\"` shares its declaration with other imports"
+	}
+	var doc []string
+	if own.Doc != nil {
+		for _, c := range own.Doc.List {
+			doc = append(doc, c.Text)
+		}
+	}
+	var want []string
+	for _, c := range rc.Preambles {
+		want = append(want, renderedComment(c))
+	}
+	if strings.Join(doc, "\x00") != strings.Join(want, "\x00") {
+		return fmt.Sprintf("the comments directly above `import \"C\"` are %q, want the preambles %q", doc, want)
+	}
+	return ""
 }
 
 // Resolve checks C03/C04/C05/C06 on one rendered file.
 func (rc *RefCase) Resolve(src string) string {
 	fset := token.NewFileSet()
-	f, err := parser.ParseFile(fset, "x.go", src, 0)
+	f, err := parser.ParseFile(fset, "x.go", src, parser.ParseComments)
 	if err != nil {
 		return "output does not parse: " + err.Error()
 	}
 	specs, err := parseImports(f)
 	if err != nil {
 		return err.Error()
+	}
+	if m := rc.cgoRule(f); m != "" {
+		return m
 	}
 	scope := map[string]string{} // qualifier -> path
 	dots := map[string]bool{}
@@ -367,6 +443,7 @@ func BuildRefCase(r *rand.Rand, paths []string, setup hist.History, local string
 			}
 		case "cgo":
 			rc.Cgo = true
+			rc.Preambles = append(rc.Preambles, op.A)
 		}
 	}
 	for _, i := range refs {
